@@ -22,7 +22,8 @@ ThetaOK(th) == \/ th.theta = "NA"
 AboveSet(d, th) ==
   IF th.theta # "NA" THEN GtSet(d, th.theta)
   ELSE IF DefGt(d, th.hi) THEN {TRUE} ELSE IF DefLt(d, th.lo) THEN {FALSE} ELSE {TRUE, FALSE}
-SetReference(q) == /\ ref' = q /\ UNCHANGED <<ncfg, total, since, st, dist>>
+(* a new reference starts a new epoch (the state itself is only cleared by the next update / reset) *)
+SetReference(q) == /\ ref' = q /\ since' = 0 /\ UNCHANGED <<ncfg, total, st, dist>>
 Update(q, part, th) ==
   /\ total' = total + 1 /\ since' = (IF st = "drift" THEN 0 ELSE since) + 1 /\ ncfg' = ncfg
   /\ PartOK(part, ref, q) /\ ThetaOK(th)
